@@ -330,6 +330,27 @@ def backward_slice(f, start_locals, max_steps=4000):
         for s in b["st"]:
             if s["s"] == "assign" and s["d"]["p"]:
                 partial[s["d"]["l"]].append(s["rv"])
+    # container writes: `v.push(x)` / `m.insert(k, x)` / `v.extend(it)` feed v
+    feeders = defaultdict(list)
+    for bi, b in enumerate(f.blocks):
+        t = b["term"]
+        if t["t"] != "call" or not t["args"]:
+            continue
+        last = (callee_generic(t) or "").split("::")[-1]
+        if last not in ("push", "insert", "extend", "push_back", "push_front", "push_str", "append"):
+            continue
+        a0 = op_place(t["args"][0])
+        if a0 is None:
+            continue
+        root = a0["l"]
+        for _ in range(4):
+            d = f.single_def(root)
+            if d and d[2] == "assign" and d[3]["r"] in ("ref", "cfd") and \
+                    all(e[0] == "deref" for e in d[3]["p"]["p"]):
+                root = d[3]["p"]["l"]
+            else:
+                break
+        feeders[root].append((bi, t))
     steps = 0
     while dq and steps < max_steps:
         steps += 1
@@ -337,6 +358,12 @@ def backward_slice(f, start_locals, max_steps=4000):
         if l in seen:
             continue
         seen.add(l)
+        for (bi, t) in feeders.get(l, []):
+            calls.append((bi, t))
+            for o in t["args"][1:]:
+                p = op_place(o)
+                if p is not None:
+                    dq.append(p["l"])
         if 1 <= l <= f.argc:
             args.add(l)
         for (bi, si, kind, payload) in defs.get(l, []):
